@@ -1,20 +1,53 @@
 //@ unit rt_funcs
 //@ serves C01 C04
-//@ must_verify Builtins::map Builtins::filter Builtins::reduce lemma_call_on_stack
+//@ must_verify Builtins::map Builtins::filter Builtins::reduce lemma_call_on_stack lemma_filter_example lemma_reduce_example lemma_map_str_example
 // C01/C04 — the functional operators: `Builtins::map`, `Builtins::filter`, `Builtins::reduce`
 // (src/build/opcode/runtime.rs) verbatim, with `decorate_call!` (opcode/error.rs) verbatim.
 //
-// Oracle: docsite/site/content/reference/expressions.md, "Functional processing expressions".
-// Calling a function value is ASSUMED (VM::fcall_impl is verified in unit `scope`, the interpreter loop is outside):
-// it pops one argument per parameter and its outcome is `call_result(f, arguments in parameter order)`, an
-// uninterpreted function (UCG functions are pure) whose value None stands for "the call fails the build".
+// Oracle: docsite/site/content/reference/expressions.md, "Functional processing expressions":
+//   map    list: f takes one argument, element i becomes f(element i); tuple: f takes (name, value) and returns the
+//          two item list [new name (a string), new value] that REPLACES the field; string: f takes each character
+//          (as a string) and returns a string, the results are concatenated.
+//   filter an item / field / character is filtered out iff f returns false or NULL; any other value keeps it.
+//   reduce acc_0 = the initial accumulator, acc_{i+1} = f(acc_i, item_i) (tuples: f(acc_i, name_i, value_i)); result acc_n.
+//   "Whether the build fails" (C01): it fails iff a call fails, an operand has the wrong kind, the function does not
+//   take the number of arguments the reference prescribes, or a map function's result cannot replace the item.
+// ASSUMED: calling a function value (VM::fcall_impl is verified in unit `scope`; the interpreter loop is outside):
+//   it pops one argument per parameter and its outcome is `call_result(f, arguments in parameter order)`, an
+//   uninterpreted function - UCG functions are pure - whose value None stands for "the call fails the build".
+// C04: the three `BUG: stack underflow` panics per hook are unreachable under the translator invariant in `requires`
+//   (operands pushed); `elems_pos_list[counter]` etc. are in range under the value invariant `wf_top` (one position
+//   per element), which the hooks re-establish for their results; every fcall_impl call meets its stack-depth
+//   precondition BECAUSE of the arity check.
+// Genuine defects found on the pinned tree (fixed in the worktree, /scratch/patches/rt_funcs*.patch):
+//   1. no arity check: `let y = map(func(a, b) => a, [1]);` panics (exit 101); a function with too FEW parameters leaves
+//      its surplus arguments on the value stack.  On the unfixed tree the loop invariant `arity(*f) == ..` fails before
+//      the loops, i.e. fcall_impl's precondition cannot be established.
+//   2. tuple map: a field whose function result is not a list silently disappears (`map(func(n, v) => 1, t)` = {});
+//      the reference says the result "will replace the element or field" and the neighbouring malformed results
+//      (wrong length, non-string name) are build errors.  Contract: build error.  The pinned behaviour is the seeded
+//      mutant `map_tuple_nonlist_dropped`.
 //@ include prelude/head.rs
 use std::rc::Rc;
 
 verus! {
 //@ include prelude/core.rs
-//@ opaque Position VPathBuf OpPointer Stack Module ConstraintVal VEnvCell VM
+//@ opaque Position VPathBuf OpPointer Stack Module ConstraintVal VM
 //@ clone_spec Position
+
+// The environment cell is only handed on to the function call (R5): `RefCell<Environment<O, E>>` stays in the
+// signatures, both types are opaque stand-ins; `std::io::Write` is declared to Verus as an external trait.
+#[verifier::external_body]
+#[verifier::accept_recursive_types(T)]
+pub struct RefCell<T> { _p: core::marker::PhantomData<T> }
+#[verifier::external_body]
+#[verifier::accept_recursive_types(O)]
+#[verifier::accept_recursive_types(E)]
+pub struct Environment<O, E> { _p: core::marker::PhantomData<(O, E)> }
+#[verifier::external_trait_specification]
+pub trait ExIoWrite {
+    type ExternalTraitSpecificationFor: std::io::Write;
+}
 
 // opcode::Error is only constructed, decorated and propagated here (R5); message text dropped (R1).
 #[verifier::external_body]
@@ -97,9 +130,6 @@ proof fn lemma_call_on_stack(f: Func, st: Seq<(Rc<Value>, Position)>)
 
 // VM::fcall_impl: signature from the source, body ASSUMED (contract below; verified against its real body in unit `scope`).
 //@ extract src/build/opcode/vm.rs :: impl VM :: fn fcall_impl
-//@   subst "pub fn fcall_impl<O, E>(" => "pub fn fcall_impl("
-//@   subst "env: &RefCell<Environment<O, E>>," => "env: &VEnvCell,"
-//@   subst "where O: std::io::Write + Clone, E: std::io::Write + Clone," => ""
 //@   opaque_body
 //@   ret r
 //@   sig <<<
@@ -124,6 +154,10 @@ pub open spec fn wf_top(v: Value) -> bool {
 }
 
 // ---------- oracle (reference: Functional processing expressions) ----------
+// the k-th value from the top of the value stack (1 = top)
+pub open spec fn opnd(st: Seq<(Rc<Value>, Position)>, k: int) -> Value { *st[st.len() - k].0 }
+// "All of them can process a string, list, or tuple."
+pub open spec fn functional_target(v: Value) -> bool { v is C || (v matches P(p) && p is Str) }
 pub open spec fn arity(f: Func) -> int { f.bindings@.len() as int }
 
 // the argument lists the reference prescribes
@@ -139,7 +173,6 @@ pub open spec fn pair_of(v: Value) -> Option<(Rc<str>, Rc<Value>)> {
         _ => None,
     }
 }
-pub open spec fn map_elem_ok(f: Func, e: Rc<Value>) -> bool { call_result(f, elem_args(e)) is Some }
 pub open spec fn map_field_ok(f: Func, fld: (Rc<str>, Rc<Value>)) -> bool {
     call_result(f, field_args(fld)) matches Some(v) && pair_of(v) is Some
 }
@@ -152,6 +185,33 @@ pub open spec fn map_str(f: Func, s: Seq<char>, k: int) -> Seq<char>
     decreases k
 {
     if k <= 0 { Seq::<char>::empty() } else { map_str(f, s, k - 1) + map_char_piece(f, s[k - 1]) }
+}
+
+// what `map(f, target)` must do, per kind of target (r: outcome, out: the value left on top of the stack)
+pub open spec fn map_list_post(f: Func, elems: Seq<Rc<Value>>, r: Result<(), Error>, out: Value) -> bool {
+    // a list: the function takes one argument; element i becomes f(element i)
+    &&& arity(f) != 1 ==> r is Err
+    &&& arity(f) == 1 ==> (r is Ok <==> forall|i: int| 0 <= i < elems.len() ==> call_elem_ok(f, #[trigger] elems[i]))
+    &&& arity(f) == 1 && r is Ok ==> (out matches C(List(res, _)) && res@.len() == elems.len()
+            && forall|i: int| 0 <= i < elems.len() ==> Some(*(#[trigger] res@[i])) == call_result(f, elem_args(elems[i])))
+}
+pub open spec fn map_tuple_post(f: Func, flds: Seq<(Rc<str>, Rc<Value>)>, r: Result<(), Error>, out: Value) -> bool {
+    // a tuple: the function takes (name, value) and returns [new name, new value], which replaces the field
+    &&& arity(f) != 2 ==> r is Err
+    &&& arity(f) == 2 ==> (r is Ok <==> forall|i: int| 0 <= i < flds.len() ==> map_field_ok(f, #[trigger] flds[i]))
+    &&& arity(f) == 2 && r is Ok ==> (out matches C(Tuple(res, _)) && res@.len() == flds.len()
+            && forall|i: int| 0 <= i < flds.len() ==> Some(#[trigger] res@[i]) == pair_of(call_result(f, field_args(flds[i]))->0))
+}
+// loop invariant of the tuple arm: the first i fields have each been replaced by the pair their call returned
+pub open spec fn map_tuple_inv(f: Func, flds: Seq<(Rc<str>, Rc<Value>)>, out: Seq<(Rc<str>, Rc<Value>)>, out_pos_len: int, i: int) -> bool {
+    &&& out.len() == i && out_pos_len == i
+    &&& forall|j: int| 0 <= j < i ==> map_field_ok(f, #[trigger] flds[j]) && Some(out[j]) == pair_of(call_result(f, field_args(flds[j]))->0)
+}
+pub open spec fn map_str_post(f: Func, s: Seq<char>, r: Result<(), Error>, out: Value) -> bool {
+    // a string: the function takes each character (as a string) and returns a string; the results are concatenated
+    &&& arity(f) != 1 ==> r is Err
+    &&& arity(f) == 1 ==> (r is Ok <==> forall|i: int| 0 <= i < s.len() ==> map_char_ok(f, #[trigger] s[i]))
+    &&& arity(f) == 1 && r is Ok ==> (out matches P(Str(res)) && res@ == map_str(f, s, s.len() as int))
 }
 
 // --- filter ---
@@ -182,6 +242,22 @@ pub open spec fn call_elem_ok(f: Func, e: Rc<Value>) -> bool { call_result(f, el
 pub open spec fn call_field_ok(f: Func, fld: (Rc<str>, Rc<Value>)) -> bool { call_result(f, field_args(fld)) is Some }
 pub open spec fn call_char_ok(f: Func, c: char) -> bool { call_result(f, char_args(c)) is Some }
 
+pub open spec fn filter_list_post(f: Func, elems: Seq<Rc<Value>>, r: Result<(), Error>, out: Value) -> bool {
+    &&& arity(f) != 1 ==> r is Err
+    &&& arity(f) == 1 ==> (r is Ok <==> forall|i: int| 0 <= i < elems.len() ==> call_elem_ok(f, #[trigger] elems[i]))
+    &&& arity(f) == 1 && r is Ok ==> (out matches C(List(res, _)) && res@ == kept_elems(f, elems, elems.len() as int))
+}
+pub open spec fn filter_tuple_post(f: Func, flds: Seq<(Rc<str>, Rc<Value>)>, r: Result<(), Error>, out: Value) -> bool {
+    &&& arity(f) != 2 ==> r is Err
+    &&& arity(f) == 2 ==> (r is Ok <==> forall|i: int| 0 <= i < flds.len() ==> call_field_ok(f, #[trigger] flds[i]))
+    &&& arity(f) == 2 && r is Ok ==> (out matches C(Tuple(res, _)) && res@ == kept_fields(f, flds, flds.len() as int))
+}
+pub open spec fn filter_str_post(f: Func, s: Seq<char>, r: Result<(), Error>, out: Value) -> bool {
+    &&& arity(f) != 1 ==> r is Err
+    &&& arity(f) == 1 ==> (r is Ok <==> forall|i: int| 0 <= i < s.len() ==> call_char_ok(f, #[trigger] s[i]))
+    &&& arity(f) == 1 && r is Ok ==> (out matches P(Str(res)) && res@ == kept_chars(f, s, s.len() as int))
+}
+
 // --- reduce ---
 // acc_0 = initial, acc_{i+1} = f(acc_i, item_i)  (tuples: f(acc_i, name_i, value_i))
 pub open spec fn or_null(o: Option<Value>) -> Value { match o { Some(v) => v, None => P(Empty) } }
@@ -201,82 +277,87 @@ pub open spec fn acc_chars(f: Func, init: Value, s: Seq<char>, k: int) -> Value
     if k <= 0 { init } else { or_null(call_result(f, seq![acc_chars(f, init, s, k - 1), P(Str(rcstr_of(seq![s[k - 1]])))])) }
 }
 
+pub open spec fn red_elem_ok(f: Func, acc: Value, e: Rc<Value>) -> bool { call_result(f, seq![acc, *e]) is Some }
+pub open spec fn red_field_ok(f: Func, acc: Value, fld: (Rc<str>, Rc<Value>)) -> bool { call_result(f, seq![acc, P(Str(fld.0)), *fld.1]) is Some }
+pub open spec fn red_char_ok(f: Func, acc: Value, c: char) -> bool { call_result(f, seq![acc, P(Str(rcstr_of(seq![c])))]) is Some }
+pub open spec fn reduce_list_post(f: Func, init: Value, elems: Seq<Rc<Value>>, r: Result<(), Error>, out: Value) -> bool {
+    &&& arity(f) != 2 ==> r is Err
+    &&& arity(f) == 2 ==> (r is Ok <==> forall|i: int| 0 <= i < elems.len() ==> red_elem_ok(f, acc_elems(f, init, elems, i), #[trigger] elems[i]))
+    &&& arity(f) == 2 && r is Ok ==> out == acc_elems(f, init, elems, elems.len() as int)
+}
+pub open spec fn reduce_tuple_post(f: Func, init: Value, flds: Seq<(Rc<str>, Rc<Value>)>, r: Result<(), Error>, out: Value) -> bool {
+    &&& arity(f) != 3 ==> r is Err
+    &&& arity(f) == 3 ==> (r is Ok <==> forall|i: int| 0 <= i < flds.len() ==> red_field_ok(f, acc_fields(f, init, flds, i), #[trigger] flds[i]))
+    &&& arity(f) == 3 && r is Ok ==> out == acc_fields(f, init, flds, flds.len() as int)
+}
+pub open spec fn reduce_str_post(f: Func, init: Value, s: Seq<char>, r: Result<(), Error>, out: Value) -> bool {
+    &&& arity(f) != 2 ==> r is Err
+    &&& arity(f) == 2 ==> (r is Ok <==> forall|i: int| 0 <= i < s.len() ==> red_char_ok(f, acc_chars(f, init, s, i), #[trigger] s[i]))
+    &&& arity(f) == 2 && r is Ok ==> out == acc_chars(f, init, s, s.len() as int)
+}
+
 // ---------- the hooks ----------
 //@ extract src/build/opcode/runtime.rs :: impl Builtins :: fn map
 //@   rule R1 R3
-//@   subst "fn map<O, E>(" => "fn map("
-//@   subst "env: &RefCell<Environment<O, E>>," => "env: &VEnvCell,"
-//@   subst "where O: std::io::Write + Clone, E: std::io::Write + Clone," => ""
 //@   subst "match *list.as_ref() {" => "match list.as_ref() {"
 //@   subst "let mut result_elems = Vec::new();" => "let mut result_elems: Vec<Rc<Value>> = Vec::new();"
 //@   subst "let mut pos_elems = Vec::new();" => "let mut pos_elems: Vec<Position> = Vec::new();"
 //@   subst "let mut new_fields = Vec::new();" => "let mut new_fields: Vec<(Rc<str>, Rc<Value>)> = Vec::new();"
 //@   subst "let mut new_flds_pos_list = Vec::new();" => "let mut new_flds_pos_list: Vec<(Position, Position)> = Vec::new();"
+//@   mutant map_reversed "result_elems.push(result);" => "result_elems.insert(0, result);" expect map
+//@   mutant map_last_dropped "stack.push((Rc::new(C(List(result_elems, pos_elems))), list_pos));" => "result_elems.pop(); pos_elems.pop(); stack.push((Rc::new(C(List(result_elems, pos_elems))), list_pos));" expect map
+//@   mutant map_tuple_old_name "new_fields.push((name, fval[1].clone()));" => "new_fields.push((flds[counter].0.clone(), fval[1].clone()));" expect map
+//@   mutant map_tuple_args_swapped "stack.push((Rc::new(P(Str(name.clone()))), name_pos)); stack.push((val.clone(), val_pos));" => "stack.push((val.clone(), val_pos)); stack.push((Rc::new(P(Str(name.clone()))), name_pos));" expect map
+// the pinned tree's behaviour: a field whose function result is not a list silently disappears
+//@   mutant map_tuple_nonlist_dropped "else { return Err(Error::new( \"Map Functions over tuples must return a list of two items\".into(), result_pos, )); }" => "else { }" expect map
+//@   mutant map_arity_too_few_accepted "if f.bindings.len() != arg_count {" => "if f.bindings.len() > arg_count {" expect map
+//@   mutant map_arity_off_by_one "{ 2 } else { 1 }" => "{ 3 } else { 2 }" expect map
 //@   ret r
 //@   sig <<<
         requires
             // translator invariant (caller obligation): the function and the target were pushed
             old(stack)@.len() >= 2,
             // value invariant: one position per element / field
-            wf_top(*old(stack)@[old(stack)@.len() - 1].0),
+            wf_top(opnd(old(stack)@, 1)),
         ensures
             // the result replaces the two operands; everything below is untouched
             r is Ok ==> final(stack)@.len() == old(stack)@.len() - 1
                 && final(stack)@.drop_last() =~= old(stack)@.subrange(0, old(stack)@.len() - 2)
-                && wf_top(*final(stack)@.last().0),
-            !(*old(stack)@[old(stack)@.len() - 2].0 is F) ==> r is Err,
-            *old(stack)@[old(stack)@.len() - 2].0 matches F(f) ==> match *old(stack)@[old(stack)@.len() - 1].0 {
-                // a list: the function takes one argument; element i becomes f(element i)
-                C(List(elems, _)) => {
-                    &&& arity(f) != 1 ==> r is Err
-                    &&& arity(f) == 1 ==> (r is Ok <==> forall|i: int| 0 <= i < elems@.len() ==> map_elem_ok(f, #[trigger] elems@[i]))
-                    &&& arity(f) == 1 && r is Ok ==> (*final(stack)@.last().0 matches C(List(res, _)) && res@.len() == elems@.len()
-                            && forall|i: int| 0 <= i < elems@.len() ==> Some(*(#[trigger] res@[i])) == call_result(f, elem_args(elems@[i])))
-                },
-                // a tuple: the function takes (name, value) and returns [new name, new value] which replaces the field
-                C(Tuple(flds, _)) => {
-                    &&& arity(f) != 2 ==> r is Err
-                    &&& arity(f) == 2 ==> (r is Ok <==> forall|i: int| 0 <= i < flds@.len() ==> map_field_ok(f, #[trigger] flds@[i]))
-                    &&& arity(f) == 2 && r is Ok ==> (*final(stack)@.last().0 matches C(Tuple(res, _)) && res@.len() == flds@.len()
-                            && forall|i: int| 0 <= i < flds@.len() ==> Some(#[trigger] res@[i]) == pair_of(call_result(f, field_args(flds@[i]))->0))
-                },
-                // a string: the function takes each character (as a string) and returns a string; the results are concatenated
-                P(Str(s)) => {
-                    &&& arity(f) != 1 ==> r is Err
-                    &&& arity(f) == 1 ==> (r is Ok <==> forall|i: int| 0 <= i < s@.len() ==> map_char_ok(f, #[trigger] s@[i]))
-                    &&& arity(f) == 1 && r is Ok ==> (*final(stack)@.last().0 matches P(Str(res)) && res@ == map_str(f, s@, s@.len() as int))
-                },
-                _ => r is Err,
-            },
+                && wf_top(opnd(final(stack)@, 1)),
+            !(opnd(old(stack)@, 2) is F) ==> r is Err,
+            opnd(old(stack)@, 2) matches F(f) ==> (opnd(old(stack)@, 1) matches C(List(elems, _)) ==> map_list_post(f, elems@, r, opnd(final(stack)@, 1))),
+            opnd(old(stack)@, 2) matches F(f) ==> (opnd(old(stack)@, 1) matches C(Tuple(flds, _)) ==> map_tuple_post(f, flds@, r, opnd(final(stack)@, 1))),
+            opnd(old(stack)@, 2) matches F(f) ==> (opnd(old(stack)@, 1) matches P(Str(s)) ==> map_str_post(f, s@, r, opnd(final(stack)@, 1))),
+            !functional_target(opnd(old(stack)@, 1)) ==> r is Err,
 //@   >>>
 //@   loop 1 indexed <<<
                     invariant
                         i__1 <= it__1@.len(), it__1@ == elems@, elems_pos_list@.len() == elems@.len(),
-                        old(stack)@.len() >= 2, *old(stack)@[old(stack)@.len() - 2].0 == F(*f),
-                        *old(stack)@[old(stack)@.len() - 1].0 == C(List(*elems, *elems_pos_list)),
+                        old(stack)@.len() >= 2, opnd(old(stack)@, 2) == F(*f),
+                        opnd(old(stack)@, 1) == C(List(*elems, *elems_pos_list)),
                         arity(*f) == 1,
                         stack@ =~= old(stack)@.subrange(0, old(stack)@.len() - 2),
                         result_elems@.len() == i__1, pos_elems@.len() == i__1,
+                        forall|j: int| 0 <= j < i__1 ==> call_elem_ok(*f, #[trigger] elems@[j]),
                         forall|j: int| 0 <= j < i__1 ==> Some(*(#[trigger] result_elems@[j])) == call_result(*f, elem_args(elems@[j])),
                     decreases it__1@.len() - i__1
 //@   >>>
 //@   loop 2 indexed <<<
                     invariant
                         i__2 <= it__2@.len(), it__2@ == flds@, flds_pos_list@.len() == flds@.len(),
-                        old(stack)@.len() >= 2, *old(stack)@[old(stack)@.len() - 2].0 == F(*f),
-                        *old(stack)@[old(stack)@.len() - 1].0 == C(Tuple(*flds, *flds_pos_list)),
+                        old(stack)@.len() >= 2, opnd(old(stack)@, 2) == F(*f),
+                        opnd(old(stack)@, 1) == C(Tuple(*flds, *flds_pos_list)),
                         arity(*f) == 2,
                         stack@ =~= old(stack)@.subrange(0, old(stack)@.len() - 2),
-                        new_fields@.len() == i__2, new_flds_pos_list@.len() == i__2,
-                        forall|j: int| 0 <= j < i__2 ==> map_field_ok(*f, #[trigger] flds@[j])
-                            && Some(new_fields@[j]) == pair_of(call_result(*f, field_args(flds@[j]))->0),
+                        // every field processed so far was replaced by exactly one field
+                        map_tuple_inv(*f, flds@, new_fields@, new_flds_pos_list@.len() as int, i__2 as int),
                     decreases it__2@.len() - i__2
 //@   >>>
 //@   loop 3 indexed <<<
                     invariant
                         i__3 <= it__3@.len(), it__3@ == s@,
-                        old(stack)@.len() >= 2, *old(stack)@[old(stack)@.len() - 2].0 == F(*f),
-                        *old(stack)@[old(stack)@.len() - 1].0 == P(Str(*s)),
+                        old(stack)@.len() >= 2, opnd(old(stack)@, 2) == F(*f),
+                        opnd(old(stack)@, 1) == P(Str(*s)),
                         arity(*f) == 1,
                         stack@ =~= old(stack)@.subrange(0, old(stack)@.len() - 2),
                         forall|j: int| 0 <= j < i__3 ==> map_char_ok(*f, #[trigger] s@[j]),
@@ -284,6 +365,159 @@ pub open spec fn acc_chars(f: Func, init: Value, s: Seq<char>, k: int) -> Value
                     decreases it__3@.len() - i__3
 //@   >>>
 //@ end
+
+//@ extract src/build/opcode/runtime.rs :: impl Builtins :: fn filter
+//@   rule R1 R3
+//@   subst "match *list.as_ref() {" => "match list.as_ref() {"
+//@   subst "let mut result_elems = Vec::new();" => "let mut result_elems: Vec<Rc<Value>> = Vec::new();"
+//@   subst "let mut pos_elems = Vec::new();" => "let mut pos_elems: Vec<Position> = Vec::new();"
+//@   subst "let mut new_fields = Vec::new();" => "let mut new_fields: Vec<(Rc<str>, Rc<Value>)> = Vec::new();"
+//@   subst "let mut new_flds_pos_list = Vec::new();" => "let mut new_flds_pos_list: Vec<(Position, Position)> = Vec::new();"
+//@   mutant filter_keeps_only_true "&P(Empty) | &P(Bool(false)) => { continue; } _ => { result_elems" => "&P(Bool(true)) => { } _ => { continue; } } match condition.as_ref() { _ => { result_elems" expect filter
+//@   mutant filter_drops_null_only "&P(Empty) | &P(Bool(false)) => { continue; } _ => { new_fields" => "&P(Empty) => { continue; } _ => { new_fields" expect filter
+//@   mutant filter_str_drops_false_only "&P(Empty) | &P(Bool(false)) => { continue; } _ => buf.push(c)," => "&P(Bool(false)) => { continue; } _ => buf.push(c)," expect filter
+//@   mutant filter_pushes_condition "result_elems.push(e.clone());" => "result_elems.push(condition.clone());" expect filter
+//@   mutant filter_tuple_arity_one "{ 2 } else { 1 }" => "{ 1 } else { 1 }" expect filter
+//@   ret r
+//@   sig <<<
+        requires
+            // translator invariant (caller obligation): the function and the target were pushed
+            old(stack)@.len() >= 2,
+            // value invariant: one position per element / field
+            wf_top(opnd(old(stack)@, 1)),
+        ensures
+            // the result replaces the two operands; everything below is untouched
+            r is Ok ==> final(stack)@.len() == old(stack)@.len() - 1
+                && final(stack)@.drop_last() =~= old(stack)@.subrange(0, old(stack)@.len() - 2)
+                && wf_top(opnd(final(stack)@, 1)),
+            !(opnd(old(stack)@, 2) is F) ==> r is Err,
+            opnd(old(stack)@, 2) matches F(f) ==> (opnd(old(stack)@, 1) matches C(List(elems, _)) ==> filter_list_post(f, elems@, r, opnd(final(stack)@, 1))),
+            opnd(old(stack)@, 2) matches F(f) ==> (opnd(old(stack)@, 1) matches C(Tuple(flds, _)) ==> filter_tuple_post(f, flds@, r, opnd(final(stack)@, 1))),
+            opnd(old(stack)@, 2) matches F(f) ==> (opnd(old(stack)@, 1) matches P(Str(s)) ==> filter_str_post(f, s@, r, opnd(final(stack)@, 1))),
+            !functional_target(opnd(old(stack)@, 1)) ==> r is Err,
+//@   >>>
+//@   loop 1 indexed <<<
+                    invariant
+                        i__1 <= it__1@.len(), it__1@ == elems@, elems_pos_list@.len() == elems@.len(),
+                        old(stack)@.len() >= 2, opnd(old(stack)@, 2) == F(*f),
+                        opnd(old(stack)@, 1) == C(List(*elems, *elems_pos_list)),
+                        arity(*f) == 1,
+                        stack@ =~= old(stack)@.subrange(0, old(stack)@.len() - 2),
+                        forall|j: int| 0 <= j < i__1 ==> call_elem_ok(*f, #[trigger] elems@[j]),
+                        result_elems@ == kept_elems(*f, elems@, i__1 as int), pos_elems@.len() == result_elems@.len(),
+                    decreases it__1@.len() - i__1
+//@   >>>
+//@   loop 2 indexed <<<
+                    invariant
+                        i__2 <= it__2@.len(), it__2@ == flds@, pos_list@.len() == flds@.len(),
+                        old(stack)@.len() >= 2, opnd(old(stack)@, 2) == F(*f),
+                        opnd(old(stack)@, 1) == C(Tuple(*flds, *pos_list)),
+                        arity(*f) == 2,
+                        stack@ =~= old(stack)@.subrange(0, old(stack)@.len() - 2),
+                        forall|j: int| 0 <= j < i__2 ==> call_field_ok(*f, #[trigger] flds@[j]),
+                        new_fields@ == kept_fields(*f, flds@, i__2 as int), new_flds_pos_list@.len() == new_fields@.len(),
+                    decreases it__2@.len() - i__2
+//@   >>>
+//@   loop 3 indexed <<<
+                    invariant
+                        i__3 <= it__3@.len(), it__3@ == s@,
+                        old(stack)@.len() >= 2, opnd(old(stack)@, 2) == F(*f),
+                        opnd(old(stack)@, 1) == P(Str(*s)),
+                        arity(*f) == 1,
+                        stack@ =~= old(stack)@.subrange(0, old(stack)@.len() - 2),
+                        forall|j: int| 0 <= j < i__3 ==> call_char_ok(*f, #[trigger] s@[j]),
+                        buf@ == kept_chars(*f, s@, i__3 as int),
+                    decreases it__3@.len() - i__3
+//@   >>>
+//@ end
+
+//@ extract src/build/opcode/runtime.rs :: impl Builtins :: fn reduce
+//@   rule R1 R3
+//@   subst "match *list.as_ref() {" => "match list.as_ref() {"
+//@   mutant reduce_args_swapped "stack.push((acc.clone(), acc_pos.clone())); stack.push((e.clone(), e_pos.clone()));" => "stack.push((e.clone(), e_pos.clone())); stack.push((acc.clone(), acc_pos.clone()));" expect reduce
+//@   mutant reduce_restarts_from_initial "for (counter, e) in elems.iter().enumerate() { let e_pos = elems_pos_list[counter].clone();" => "let init__ = acc.clone(); for (counter, e) in elems.iter().enumerate() { let e_pos = elems_pos_list[counter].clone(); acc = init__.clone();" expect reduce
+//@   mutant reduce_tuple_name_value_swapped "stack.push((Rc::new(P(Str(name.clone()))), name_pos)); stack.push((val.clone(), val_pos));" => "stack.push((val.clone(), val_pos)); stack.push((Rc::new(P(Str(name.clone()))), name_pos));" expect reduce
+//@   mutant reduce_arity_off_by_one "{ 3 } else { 2 }" => "{ 2 } else { 2 }" expect reduce
+//@   mutant reduce_arity_too_many_accepted "if f.bindings.len() != arg_count {" => "if f.bindings.len() < arg_count {" expect reduce
+//@   mutant reduce_str_keeps_first_acc "acc = new_acc; acc_pos = new_acc_pos; } } _ =>" => "acc_pos = new_acc_pos; } } _ =>" expect reduce
+//@   ret r
+//@   sig <<<
+        requires
+            // translator invariant (caller obligation): the function, the initial accumulator and the target were pushed
+            old(stack)@.len() >= 3,
+            // value invariant: one position per element / field
+            wf_top(opnd(old(stack)@, 1)),
+        ensures
+            // the result replaces the three operands; everything below is untouched
+            r is Ok ==> final(stack)@.len() == old(stack)@.len() - 2
+                && final(stack)@.drop_last() =~= old(stack)@.subrange(0, old(stack)@.len() - 3),
+            !(opnd(old(stack)@, 3) is F) ==> r is Err,
+            opnd(old(stack)@, 3) matches F(f) ==> (opnd(old(stack)@, 1) matches C(List(elems, _)) ==> reduce_list_post(f, opnd(old(stack)@, 2), elems@, r, opnd(final(stack)@, 1))),
+            opnd(old(stack)@, 3) matches F(f) ==> (opnd(old(stack)@, 1) matches C(Tuple(flds, _)) ==> reduce_tuple_post(f, opnd(old(stack)@, 2), flds@, r, opnd(final(stack)@, 1))),
+            opnd(old(stack)@, 3) matches F(f) ==> (opnd(old(stack)@, 1) matches P(Str(s)) ==> reduce_str_post(f, opnd(old(stack)@, 2), s@, r, opnd(final(stack)@, 1))),
+            !functional_target(opnd(old(stack)@, 1)) ==> r is Err,
+//@   >>>
+//@   loop 1 indexed <<<
+                    invariant
+                        i__1 <= it__1@.len(), it__1@ == elems@, elems_pos_list@.len() == elems@.len(),
+                        old(stack)@.len() >= 3, opnd(old(stack)@, 3) == F(*f),
+                        opnd(old(stack)@, 1) == C(List(*elems, *elems_pos_list)),
+                        arity(*f) == 2,
+                        stack@ =~= old(stack)@.subrange(0, old(stack)@.len() - 3),
+                        forall|j: int| 0 <= j < i__1 ==> red_elem_ok(*f, acc_elems(*f, opnd(old(stack)@, 2), elems@, j), #[trigger] elems@[j]),
+                        *acc == acc_elems(*f, opnd(old(stack)@, 2), elems@, i__1 as int),
+                    decreases it__1@.len() - i__1
+//@   >>>
+//@   loop 2 indexed <<<
+                    invariant
+                        i__2 <= it__2@.len(), it__2@ == _flds@, flds_pos_list@.len() == _flds@.len(),
+                        old(stack)@.len() >= 3, opnd(old(stack)@, 3) == F(*f),
+                        opnd(old(stack)@, 1) == C(Tuple(*_flds, *flds_pos_list)),
+                        arity(*f) == 3,
+                        stack@ =~= old(stack)@.subrange(0, old(stack)@.len() - 3),
+                        forall|j: int| 0 <= j < i__2 ==> red_field_ok(*f, acc_fields(*f, opnd(old(stack)@, 2), _flds@, j), #[trigger] _flds@[j]),
+                        *acc == acc_fields(*f, opnd(old(stack)@, 2), _flds@, i__2 as int),
+                    decreases it__2@.len() - i__2
+//@   >>>
+//@   loop 3 indexed <<<
+                    invariant
+                        i__3 <= it__3@.len(), it__3@ == s@,
+                        old(stack)@.len() >= 3, opnd(old(stack)@, 3) == F(*f),
+                        opnd(old(stack)@, 1) == P(Str(*s)),
+                        arity(*f) == 2,
+                        stack@ =~= old(stack)@.subrange(0, old(stack)@.len() - 3),
+                        forall|j: int| 0 <= j < i__3 ==> red_char_ok(*f, acc_chars(*f, opnd(old(stack)@, 2), s@, j), #[trigger] s@[j]),
+                        *acc == acc_chars(*f, opnd(old(stack)@, 2), s@, i__3 as int),
+                    decreases it__3@.len() - i__3
+//@   >>>
+//@ end
+
+// ---------- the oracle on the reference's examples (sanity of the spec functions) ----------
+// filter: false and NULL are filtered out, every other value (0, "", ...) keeps the item, order preserved
+proof fn lemma_filter_example(f: Func, a: Rc<Value>, b: Rc<Value>, c: Rc<Value>, d: Rc<Value>, e: Rc<str>)
+    requires
+        call_result(f, elem_args(a)) == Some(P(Int(0))), call_result(f, elem_args(b)) == Some(P(Bool(false))),
+        call_result(f, elem_args(c)) == Some(P(Empty)), call_result(f, elem_args(d)) == Some(P(Str(e))),
+    ensures kept_elems(f, seq![a, b, c, d], 4) == seq![a, d]
+{
+    reveal_with_fuel(kept_elems, 5);
+    assert(kept_elems(f, seq![a, b, c, d], 4) =~= seq![a, d]);
+}
+// reduce(f, i, [a, b]) = f(f(i, a), b)
+proof fn lemma_reduce_example(f: Func, i: Value, a: Rc<Value>, b: Rc<Value>, x: Value, y: Value)
+    requires call_result(f, seq![i, *a]) == Some(x), call_result(f, seq![x, *b]) == Some(y),
+    ensures acc_elems(f, i, seq![a, b], 2) == y
+{
+    reveal_with_fuel(acc_elems, 3);
+}
+// map(f, "ab") = f("a") + f("b")
+proof fn lemma_map_str_example(f: Func, x: Rc<str>, y: Rc<str>)
+    requires call_result(f, char_args('a')) == Some(P(Str(x))), call_result(f, char_args('b')) == Some(P(Str(y))),
+    ensures map_str(f, seq!['a', 'b'], 2) == x@ + y@
+{
+    reveal_with_fuel(map_str, 3);
+    assert(map_str(f, seq!['a', 'b'], 2) =~= x@ + y@);
+}
 
 } // verus!
 
